@@ -13,6 +13,7 @@ type OptDecl struct {
 	EnvSet bool   // backed by a set, valid env var
 	EnvVal string // the value of that variable (default: "true" for flags, "envval" otherwise)
 	Int    bool   // typed declaration: values must be base-10 integers (trees of C07)
+	Hide   bool   // declared with HideValue (only the help may differ)
 }
 
 func (o *OptDecl) Dashed() []string {
@@ -32,6 +33,7 @@ type ArgDecl struct {
 	Multi  bool
 	Int    bool
 	EnvSet bool // backed by a set environment variable (value "argenv")
+	Hide   bool // declared with HideValue (only the help may differ)
 }
 
 type Prog struct {
